@@ -240,6 +240,40 @@ def addArgument (st : St) (n : Val) (value : Entry) : R St :=
   | .error e => .error e
   | .ok i => addArgumentRaw st i value
 
+/-! ### the attributes of the parent `FormatString` (for the translation of `add_argument` itself) -/
+
+/-- `self._next_arg_index` -/
+def nextVal (st : St) : Val :=
+  match st.next with
+  | none => .none
+  | some k => .int k
+
+/-- `self._next_arg_index = v` (`None` or an `int`) -/
+def setNext (st : St) (v : Val) : R St :=
+  match v with
+  | .none => .ok { st with next := none }
+  | .int k => .ok { st with next := some k }
+  | _ => .error (.crash .TypeError)
+
+/-- `x + k` on ints -/
+def addInt (x : Val) (k : Nat) : R Val :=
+  match x with
+  | .int n => .ok (.int (n + k))
+  | _ => .error (.crash .TypeError)
+
+/-- `self._argument_map is None`: the attribute is set to `None` only after the `finditer` loop of `__init__`; while
+    conversions are being constructed it is the `defaultdict` (the model's insertion log has no `None` state) -/
+def mapIsNone (_st : St) : Bool := false
+
+/-- `not self._argument_map` -/
+def mapEmpty (st : St) : Bool := st.map.isEmpty
+
+/-- `self._argument_map[n] += [value]` (`n` an `int`) -/
+def mapAppend (st : St) (n : Val) (value : Entry) : R St :=
+  match n with
+  | .int k => .ok { st with map := st.map ++ [(k, value)] }
+  | _ => .error (.crash .TypeError)
+
 /-- `VariableWidth(self)`, `VariablePrecision(self)`, `self` as `add_argument`'s value; `selfId` is the position of the
     conversion among the items (what `parent` in an entry refers to) -/
 def variableWidth (selfId : Nat) : Entry := ⟨.width, variableWidthType, selfId⟩
